@@ -381,7 +381,16 @@ pub fn parse_offset(s: &str) -> Option<i64> {
 }
 
 /// RFC 3339 instant "YYYY-MM-DDTHH:MM:SS±HH:MM" -> epoch seconds
+/// Epoch seconds of an RFC 3339 instant, rounded DOWN when it carries a fractional part
+/// (`.5`, `.999` ...): since `to` values have whole seconds, `now >= to` iff `floor(now) >= to`.
 pub fn parse_rfc3339(s: &str) -> Option<i64> {
+    if s.len() > 25 && s.as_bytes().get(19) == Some(&b'.') {
+        let frac_end = s[20..].find(|c: char| !c.is_ascii_digit())? + 20;
+        if frac_end == 20 {
+            return None;
+        }
+        return parse_rfc3339(&format!("{}{}", &s[..19], &s[frac_end..]));
+    }
     if s.len() != 25 || s.as_bytes()[10] != b'T' {
         return None;
     }
